@@ -4,6 +4,7 @@ From Coq Require Import List Arith Bool Permutation.
 Import ListNotations.
 Require Import Fggs.Model.SCC Fggs.Proofs.SCC_bounded Fggs.Proofs.SCC_ntgraph.
 Require Import Fggs.Proofs.SCC_checker Fggs.Proofs.SCC_tarjan.
+Require Import Fggs.Model.SCCOrder Fggs.Proofs.SCC_order.
 
 (** nonterminal_graph has an edge X->Y exactly when some rule for X has a rhs edge labelled by
     the nonterminal Y, and contains every nonterminal, including those without rules. *)
@@ -89,3 +90,32 @@ Theorem C19_tarjan_correct_perm3 :
   forall g, In g graphs_perm3 -> exists cs, scc g = Some cs /\ scc_ok g cs = true.
 Proof. exact tarjan_correct_perm3. Qed.
 Print Assumptions C19_tarjan_correct_perm3.
+
+(** Last clause of the property ("every nonterminal's sum-product is computed after those it depends
+    on and every nonterminal receives a value"), as judged on one observed call of sum_products:
+    [nts]/[rules] describe the grammar as it is AT THE TIME OF THE CALL (also when the same object
+    was queried before and edited in place since), [blocks] are the lists of nonterminals handed one
+    after the other to the per-component solver, [keys] the nonterminals with a value in the result.
+    Verdict 0 of the check function means: every nonterminal has a value, lies in exactly one block,
+    every nonterminal on the right-hand side of one of its rules lies in the same or an EARLIER
+    block, and the blocks are the model's decomposition of the current nonterminal graph. *)
+Theorem C19_sum_products_order :
+  forall nts rules blocks keys,
+    sp_order_check (nts, rules, blocks, keys) = 0 ->
+    (forall x, In x nts -> In x keys) /\
+    NoDup (concat blocks) /\
+    (forall x, In x nts ->
+      exists l1 c l2, blocks = l1 ++ c :: l2 /\ In x c /\
+        forall r y, In r rules -> fst r = x -> In (y, true) (snd r) ->
+          In y c \/ exists d, In d l1 /\ In y d) /\
+    scc (ntgraph nts rules) = Some blocks.
+Proof. exact sp_order_check_sound. Qed.
+Print Assumptions C19_sum_products_order.
+
+(** ... and the check is satisfiable on every well-formed grammar: the model's own decomposition,
+    with a value for every nonterminal, gets verdict 0. *)
+Theorem C19_sum_products_order_model :
+  forall nts rules, closed (ntgraph nts rules) = true ->
+    exists cs, scc (ntgraph nts rules) = Some cs /\ sp_order_check (nts, rules, cs, nts) = 0.
+Proof. exact sp_order_check_model. Qed.
+Print Assumptions C19_sum_products_order_model.
